@@ -16,10 +16,27 @@ Definition default_ok (p : param) : bool :=
 Fixpoint nodup_str (l : list str) : bool :=
   match l with [] => true | x :: l' => negb (mem_str x l') && nodup_str l' end.
 
+(* a generated function forwards its keywords to the class it returns: each of its parameters is one the
+   class takes, and every parameter the class requires is a required parameter of the function *)
+Definition func_ok (F : family) (f : func) : bool :=
+  match find_cls F (f_ret f) with
+  | Some k =>
+      forallb (fun p => c_varkw k || match find_param (c_params k) (p_name p) with Some _ => true | None => false end)
+              (f_params f)
+      && forallb (fun q => match p_def q with
+                           | Some _ => true
+                           | None => match find_param (f_params f) (p_name q) with
+                                     | Some p' => match p_def p' with None => true | Some _ => false end
+                                     | None => false
+                                     end
+                           end) (c_params k)
+  | None => false
+  end.
+
 Definition fam_wf (F : family) : bool :=
   forallb (fun k => forallb default_ok (c_params k) && nodup_str (map p_name (c_params k))) (fam_classes F)
   && forallb (fun f => forallb default_ok (f_params f) && nodup_str (map p_name (f_params f))
-                       && match find_cls F (f_ret f) with Some _ => true | None => false end) (fam_funcs F)
+                       && func_ok F f) (fam_funcs F)
   && nodup_str (map c_name (fam_classes F) ++ map f_name (fam_funcs F) ++ fam_consts F)
   && negb (has_dot (fam_mod F)).
 
@@ -33,7 +50,7 @@ Fixpoint has_null (n : nat) (r : raw) : bool :=
             end
   end.
 
-(* class 3: a null travelling through a dotted key with two or more components below the argument *)
+(* a null travelling through a dotted key with two or more components below the argument *)
 Definition nested_null (i : input) : bool :=
   match i with
   | INested path r => match strip_ia path with
@@ -43,31 +60,47 @@ Definition nested_null (i : input) : bool :=
   | IRaw _ => false
   end.
 
-(* class 1: at some argv item the class_path changes while the old value holds dict_kwargs and the new
-   one brings none (top level of the argument) *)
-Fixpoint carry_top (F : family) (base : str) (cfg : option value) (steps : list input) : bool :=
-  match steps with
-  | [] => false
-  | i :: steps' =>
-      let i' := match i with INested p r => INested (strip_ia p) r | _ => i end in
-      match adapt F FUEL lenient base cfg i' with
-      | Ok v =>
-          match cfg, v with
-          | Some (VSpec cp0 _ (_ :: _)), VSpec cp _ [] => negb (str_eqb cp0 cp)
-          | _, _ => false
-          end
-          || carry_top F base (Some (merge_val cfg v)) steps'
-      | Err _ => false
-      end
+Fixpoint value_eqb (n : nat) (a b : value) : bool :=
+  match n with 0 => false | S n' =>
+  match a, b with
+  | VInt x, VInt y => Z.eqb x y
+  | VStr x, VStr y => str_eqb x y
+  | VNull, VNull => true
+  | VSpec c1 i1 d1, VSpec c2 i2 d2 =>
+      str_eqb c1 c2
+      && list_eqb (fun p q => str_eqb (fst p) (fst q) && value_eqb n' (snd p) (snd q)) i1 i2
+      && list_eqb (fun p q => str_eqb (fst p) (fst q) && value_eqb n' (snd p) (snd q)) d1 d2
+  | _, _ => false
+  end end.
+
+Definition arg_eqb (a b : arg) : bool :=
+  match a, b with
+  | AInt x, AInt y => Z.eqb x y
+  | AStr x, AStr y => str_eqb x y
+  | ANull, ANull => true
+  | ARef i, ARef j => Nat.eqb i j
+  | _, _ => false
+  end.
+Definition kw_eqb := list_eqb (fun (p q : str * arg) => str_eqb (fst p) (fst q) && arg_eqb (snd p) (snd q)).
+Definition log_eqb := list_eqb (fun (p q : entry) => str_eqb (fst p) (fst q) && kw_eqb (snd p) (snd q)).
+
+Definition io_eqb (a b : inst_obs) : bool :=
+  match a, b with
+  | IOk r l, IOk r' l' => arg_eqb r r' && log_eqb l l'
+  | ITypeErr, ITypeErr => true
+  | _, _ => false
+  end.
+Definition obs_eqb (a b : obs) : bool :=
+  match a, b with
+  | ORej, ORej => true
+  | OAcc v io, OAcc v' io' => value_eqb 60 v v' && io_eqb io io'
+  | _, _ => false
   end.
 
+(* The one finding class: the argv contains a dotted key with two or more components below the argument
+   whose value holds a null, AND the re-stringification of that null (str(None) = "None" in
+   adapt_class_type / the NestedArg branch) changes the outcome: the model of the code as it is and the
+   model with the value handed down unchanged disagree.  Everything else is inside the guard. *)
 Definition guard_class (F : family) (base : str) (dflt : option value) (steps : list input) : N :=
-  if existsb nested_null steps then 3%N
-  else if match expand_default F base dflt with
-          | Ok cfg0 => carry_top F base cfg0 steps
-          | Err _ => false
-          end then 1%N
-  else match parse F base dflt steps with
-       | Ok v => if dk_accepted 60 F v then 0%N else 2%N
-       | Err _ => 0%N
-       end.
+  if existsb nested_null steps && negb (obs_eqb (run F base dflt steps) (run_fixed F base dflt steps))
+  then 1%N else 0%N.
